@@ -109,6 +109,7 @@ structure Tally where
   viols : List String := []
   diffs : List String := []
   unstable : Nat := 0
+  undefinedSem : Nat := 0
   content : Nat := 0
   compared : Nat := 0
 
@@ -146,6 +147,10 @@ def judge (c : C04Case) (eng : String) (idx : Nat) (st : Step) (pair : String) (
         (a = "T" || (a.startsWith "[" && a ≠ "[]") || (a.splitOn ",").contains "T" || (st.kind = "exp" && !a.startsWith "E:"))
       { acc with content := acc.content + (if hasContent then 1 else 0) }
     else if unstable then { acc with unstable := acc.unstable + 1 }
+    else if !c.stratified && pl ≠ b && st.kind ≠ "exp" then
+      -- negation through recursion: the answer is not defined by the model (it depends on the evaluation order,
+      -- and contextual tuples are read first); only cache-induced deviations and Expand are judged
+      { acc with undefinedSem := acc.undefinedSem + 1 }
     else
       let diag :=
         if st.kind = "chk" && c.stratified then
@@ -156,11 +161,22 @@ def judge (c : C04Case) (eng : String) (idx : Nat) (st : Step) (pair : String) (
           | [] => ""
         else ""
       let what := match st.reqs with | (_, rq) :: _ => s!"{rq.obj}#{rq.rel}@{rq.user}" | [] => ""
+      -- F9 signature: on one object#relation a contextual tuple and another tuple, one for the subject and one
+      -- for the subject's typed wildcard, at least one of them conditioned (the sorted ReadStartingWithUser keeps
+      -- ONE tuple per object and filters conditions afterwards; contextual tuples come first)
+      let users := st.reqs.map (fun p => p.2.user)
+      let forSubject := fun (t : Tuple) => users.any (fun u => t.user = u || (isTypedWildcard t.user && userType t.user = userType u))
+      let ctxS := ctxOf c st.sel
+      let f9 := ctxS.any (fun t1 => forSubject t1 &&
+        (ctxS ++ c.base).any (fun t2 => t2.obj = t1.obj && t2.rel = t1.rel && t2.user ≠ t1.user && forSubject t2 &&
+          (t1.cond ≠ "" || t2.cond ≠ "")))
       let tag :=
         if pl = b then
           s!"[C04-CACHE engine={eng}] the answer with contextual tuples is right without caches and differs with caches on"
-        else if eng = "v2" && (pl.splitOn ",").contains "E:invalid_tuple" && (ctxOf c st.sel).any (looseCondition c.model) then
-          "[C04-V2-CTXVALID] the weighted-graph engine rejects a contextual tuple that ValidateTupleForWrite accepts (its condition is declared only on a restriction of another shape of the same user type)"
+        else if eng = "v2" && ctxS.any (looseCondition c.model) then
+          "[C04-V2-CTXVALID] the weighted-graph engine treats a contextual tuple that only the lax validateCondition accepts (condition declared on a restriction of another shape of the same user type) differently from the same tuple stored"
+        else if f9 && st.kind ≠ "lu" && st.kind ≠ "exp" then
+          "[C04-F9] a contextual tuple and the tuple of the subject's wildcard (or vice versa) sit on the same object#relation and one is conditioned: the sorted ReadStartingWithUser keeps one tuple per object before the condition filter, contextual tuples first (finding F9)"
         else "[C04-SEMANTIC] contextual tuples are not treated like stored tuples"
       { acc with viols := s!"{tag}: engine={eng} step {idx} {st.kind} {what} contextual-set={st.sel}: with contextual tuples {a} (caches on) / {pl} (no caches), with the same tuples stored {b}{diag}" :: acc.viols }
   | _ => { acc with diffs := s!"unparsable answer {pair}" :: acc.diffs }
@@ -186,6 +202,7 @@ def step (c impl : String) : String :=
     | [], d :: _ => modelDiff d
     | [], [] =>
       if t.unstable > 0 then "SKIP engine-nondeterministic (C02)"
+      else if t.undefinedSem > 0 then ok "nonstratified-order-dependent" false
       else ok (if cs.cA.isEmpty && cs.cB.isEmpty then "no-contextual" else "histories") (t.content > 0)
 
 end OpenFGAVerif.DriverC04
